@@ -134,7 +134,181 @@ Section Crypto.
       unfold ct. rewrite Hcorrect, Hk. reflexivity.
     - exact alg_name_utf8.
     - exact alg_name_short.
-    - repeat split; cbn [a_version a_mem a_par a_it a_salt]; try lia; try assumption. vm_compute. reflexivity.
+    - unfold two32 in *. repeat split; cbn [a_version a_mem a_par a_it a_salt]; try lia; try assumption.
+      vm_compute. reflexivity.
     - rewrite app_length. exact Hb.
   Qed.
+
+  Hypothesis Hintegrity : aead_integrity enc dec.
+  Hypothesis Hkdf : kdf_injective kdf.
+
+  (* under another key, or another nonce, a sealed message does not open *)
+  Lemma dec_other k n m k' n' pt : dec k' n' (enc k n m) = Some pt -> k' = k /\ n' = n /\ pt = m.
+  Proof.
+    destruct Hintegrity as [G I]. intros D. apply G in D. apply I in D. destruct D as (? & ? & ?). now subst.
+  Qed.
+
+  (* THE BINDING THEOREM. Take an honest container. Any block whatsoever - any banner, any bytes - that carries
+     the honest ciphertext and opens under any passphrase whatsoever: then the passphrase is the right one, the
+     banner is the original one, every field the block decodes to (algorithm, version, memory, parallelism,
+     iterations, salt, nonce) is the original one, and what comes out is the original curve and key.
+     Contrapositive: any other passphrase, and any alteration of salt, parameters, version, algorithm name, nonce
+     or banner, is refused. *)
+  Lemma binding curve key pass mem par it salt nonce pass' blk' cv' k' :
+    let ct := enc (kdf pass salt it mem par) nonce key in
+    honest curve key mem par it salt nonce ct ->
+    decrypt kdf dec pass' blk' = Some (cv', k') ->
+    (forall e, parse_edata (snd blk') = Some e -> skipn nonce_len (e_blob e) = ct) ->
+    pass' = pass /\ enc_banner curve = Some (fst blk') /\
+    parse_edata (snd blk') =
+      Some (mkEData (Some (mkMeta alg_name (Some (mkArgon argon2_version mem par it salt)))) (nonce ++ ct)) /\
+    cv' = curve /\ k' = key.
+  Proof.
+    intros ct (Hc & Hk & Hm & Hp & Hi & Hs1 & Hs2 & Hn & Hct & Hb) D Hsame.
+    apply decrypt_inv in D as (alg & a & blob & B & P & PO & A & V & S & L & D & K).
+    specialize (Hsame _ P). cbn [e_blob] in Hsame. rewrite Hsame in D. unfold ct in D.
+    apply dec_other in D as (Ek & En & Em). apply Hkdf in Ek as (E1 & E2 & E3 & E4 & E5).
+    subst k' pass'. destruct (enc_banner_curve_spec _ _ B) as [B' Hc'].
+    assert (cv' = curve) by (eapply key_len_curve; eassumption). subst cv'.
+    repeat split; try reflexivity; try assumption.
+    rewrite P. do 2 f_equal.
+    - f_equal. destruct a as [v m p i s]. cbn [a_version a_mem a_par a_it a_salt] in *. subst. reflexivity.
+    - rewrite <- (firstn_skipn nonce_len blob), Hsame, En. reflexivity.
+  Qed.
+
+  (* any other passphrase is refused *)
+  Lemma wrong_passphrase curve key pass mem par it salt nonce blk pass' :
+    honest curve key mem par it salt nonce (enc (kdf pass salt it mem par) nonce key) ->
+    encrypt kdf enc curve key pass mem par it salt nonce = Some blk -> pass' <> pass ->
+    decrypt kdf dec pass' blk = None.
+  Proof.
+    intros H E NE. destruct (decrypt kdf dec pass' blk) as [[cv' k']|] eqn:D; [|reflexivity]. exfalso.
+    pose proof H as (Hc & Hk & Hm & Hp & Hi & Hs1 & Hs2 & Hn & Hct & Hb).
+    unfold encrypt in E. destruct (enc_banner curve) as [banner|]; [|discriminate]. inversion E; subst blk.
+    eapply binding in D; [destruct D as (D & _); exact (NE D)|exact H|].
+    intros e P. cbn [snd] in P. rewrite parse_encode_edata in P.
+    - inversion P; subst e. cbn [e_blob]. rewrite <- Hn. rewrite skipn_app, Nat.sub_diag, skipn_all, skipn_O. reflexivity.
+    - exact alg_name_utf8.
+    - exact alg_name_short.
+    - unfold two32 in *. repeat split; cbn [a_version a_mem a_par a_it a_salt]; try lia; try assumption.
+      vm_compute. reflexivity.
+    - rewrite app_length. exact Hb.
+  Qed.
+
+  (* a block whose fields differ from the honest container's anywhere but in the ciphertext is refused under EVERY
+     passphrase; [alg], [a], [blob] are what the block decodes to *)
+  Lemma altered_refused curve key pass mem par it salt nonce pass' banner' body' alg a blob :
+    let ct := enc (kdf pass salt it mem par) nonce key in
+    honest curve key mem par it salt nonce ct ->
+    parse_edata body' = Some (mkEData (Some (mkMeta alg (Some a))) blob) ->
+    skipn nonce_len blob = ct ->
+    (enc_banner curve <> Some banner' \/ alg <> alg_name \/ a <> mkArgon argon2_version mem par it salt \/
+     firstn nonce_len blob <> nonce) ->
+    decrypt kdf dec pass' (banner', body') = None.
+  Proof.
+    intros ct H P S ALT. destruct (decrypt kdf dec pass' (banner', body')) as [[cv' k']|] eqn:D; [|reflexivity]. exfalso.
+    pose proof H as (_ & _ & _ & _ & _ & _ & _ & Hn & _ & _).
+    eapply binding in D; [|exact H|].
+    - destruct D as (_ & B & P' & _). cbn [fst snd] in *. rewrite P in P'. inversion P'; subst.
+      destruct ALT as [X|[X|[X|X]]]; try (now apply X).
+      apply X. rewrite <- Hn. rewrite firstn_app, Nat.sub_diag, firstn_all, firstn_O, app_nil_r. reflexivity.
+    - intros e Pe. cbn [snd] in Pe. rewrite P in Pe. inversion Pe; subst. exact S.
+  Qed.
+
+  (* whatever opens - also with an altered ciphertext - carries a genuine sealing, under the key derived from the
+     presented passphrase and the block's own salt and parameters, of exactly the key that comes out: somebody who
+     cannot seal under a key derived from the passphrase cannot make a block that opens *)
+  Lemma opens_only_genuine pass' blk' cv' k' : decrypt kdf dec pass' blk' = Some (cv', k') ->
+    exists a blob, parse_edata (snd blk') = Some (mkEData (Some (mkMeta alg_name (Some a))) blob) /\
+      skipn nonce_len blob = enc (kdf pass' (a_salt a) (a_it a) (a_mem a) (a_par a)) (firstn nonce_len blob) k'.
+  Proof.
+    intros D. apply decrypt_inv in D as (alg & a & blob & B & P & PO & A & V & S & L & D & K). subst alg.
+    exists a, blob. split; [exact P|]. destruct Hintegrity as [G _]. now apply G.
+  Qed.
 End Crypto.
+
+(* ---- plain key blocks ------------------------------------------------------------------------------------ *)
+
+(* the length each marshal function is meant for *)
+Definition plain_len (fn curve : N) : N :=
+  match fn, curve with
+  | 0, _ => 32 | 1, 0 => 64 | 1, _ => 32 | 2, 0 => 32 | 2, _ => 65 | 3, 0 => 32 | _, _ => 65
+  end.
+
+Lemma plain_roundtrip fn curve key blk : marshal_key fn curve key = Some blk ->
+  N.of_nat (length key) = plain_len fn curve -> unmarshal_key fn blk = Some (key, curve).
+Proof.
+  unfold marshal_key. destruct (marshal_banner fn curve) as [b|] eqn:B; [|discriminate].
+  intros H L. inversion H; subst blk. unfold unmarshal_key. cbn [fst snd].
+  destruct fn as [|[[|[]|]|[|[]|]|]]; destruct curve as [|[| |]]; try discriminate B;
+    inversion B; subst b; cbn in L |- *; rewrite L; reflexivity.
+Qed.
+
+(* what an unmarshal function takes is exactly what the matching marshal function writes for that curve, at that
+   length: under any other banner (another key kind, another curve's, an encrypted key's, a certificate's, anything
+   else) and at any other length it refuses *)
+Lemma plain_accept_only fn banner bytes key curve : unmarshal_key fn (banner, bytes) = Some (key, curve) ->
+  marshal_key fn curve bytes = Some (banner, bytes) /\ key = bytes /\ N.of_nat (length bytes) = plain_len fn curve.
+Proof.
+  unfold unmarshal_key, marshal_key. cbn [fst snd].
+  destruct (unmarshal_rule fn banner) as [[cv l]|] eqn:R; [|discriminate].
+  destruct (N.of_nat (length bytes) =? l) eqn:L; [|discriminate]. apply N.eqb_eq in L.
+  intros H. inversion H; subst key cv.
+  unfold unmarshal_rule in R.
+  destruct fn as [|[[|[]|]|[|[]|]|]]; try discriminate R;
+    repeat match type of R with
+    | (if beq ?x ?y then _ else _) = Some _ => let E := fresh "E" in destruct (beq x y) eqn:E; [apply beq_eq in E|]
+    end; try discriminate R; inversion R; subst; cbn; repeat split; reflexivity.
+Qed.
+
+(* the acceptance matrix, swept completely: every function x every key banner *)
+Definition plain_matrix_ok : bool :=
+  forallb (fun fn => forallb (fun b =>
+    Bool.eqb (match unmarshal_rule fn b with Some _ => true | None => false end)
+             (existsb (fun cv => match marshal_banner fn cv with Some b' => beq b b' | None => false end) [0; 1]))
+    (key_banners ++ [banner_cert_v1; banner_cert_v2; []])) [0; 1; 2; 3; 4].
+
+Lemma plain_matrix : plain_matrix_ok = true.
+Proof. vm_compute. reflexivity. Qed.
+
+(* ---- the assumptions can be met ------------------------------------------------------------------------------ *)
+
+Definition frame (l : list N) : list N := N.of_nat (length l) :: l.
+Definition toy_kdf (p s : list N) (i m t : N) : list N := frame p ++ frame s ++ [i; m; t].
+Definition toy_enc (k n m : list N) : list N := frame k ++ frame n ++ m.
+Definition toy_dec (k n c : list N) : option (list N) :=
+  let p := frame k ++ frame n in
+  if beq (firstn (length p) c) p then Some (skipn (length p) c) else None.
+
+Lemma frame_inj a x b y : frame a ++ x = frame b ++ y -> a = b /\ x = y.
+Proof.
+  unfold frame. cbn [app]. intros H. inversion H as [[L E]]. apply Nat2N.inj in L.
+  assert (a = b).
+  { rewrite <- (firstn_all a), <- (firstn_all b). rewrite <- L at 2.
+    rewrite <- (firstn_app_exact a x) at 1. rewrite <- (firstn_app_exact b y). rewrite L at 1. now rewrite E. }
+  subst. split; [reflexivity|]. now apply app_inv_head in E.
+Qed.
+
+Lemma toy_meets_assumptions : aead_correct toy_enc toy_dec /\ aead_integrity toy_enc toy_dec /\ kdf_injective toy_kdf.
+Proof.
+  repeat split.
+  - intros k n m. unfold toy_dec, toy_enc. rewrite app_assoc.
+    rewrite firstn_app_exact. rewrite beq_refl. now rewrite skipn_app_exact.
+  - intros k n c m. unfold toy_dec, toy_enc.
+    destruct (beq (firstn (length (frame k ++ frame n)) c) (frame k ++ frame n)) eqn:E; [|discriminate].
+    apply beq_eq in E. intros H. inversion H; subst. rewrite app_assoc. rewrite <- E at 1. now rewrite firstn_skipn.
+  - unfold toy_enc in H. apply frame_inj in H. tauto.
+  - unfold toy_enc in H. apply frame_inj in H as [_ H]. apply frame_inj in H. tauto.
+  - unfold toy_enc in H. apply frame_inj in H as [_ H]. apply frame_inj in H. tauto.
+  - unfold toy_kdf in H. apply frame_inj in H. tauto.
+  - unfold toy_kdf in H. apply frame_inj in H as [_ H]. apply frame_inj in H. tauto.
+  - unfold toy_kdf in H. apply frame_inj in H as [_ H]. apply frame_inj in H as [_ H]. now inversion H.
+  - unfold toy_kdf in H. apply frame_inj in H as [_ H]. apply frame_inj in H as [_ H]. now inversion H.
+  - unfold toy_kdf in H. apply frame_inj in H as [_ H]. apply frame_inj in H as [_ H]. now inversion H.
+Qed.
+
+(* ... and the honest inputs exist: an Ed25519 key under the toy cryptography *)
+Example honest_example :
+  honest toy_kdf toy_enc 0 (repeat 7 64) 8 1 1 (repeat 1 32) (repeat 2 12)
+         (toy_enc (toy_kdf [112] (repeat 1 32) 1 8 1) (repeat 2 12) (repeat 7 64)).
+Proof. unfold honest. repeat split; try (now left); vm_compute; try reflexivity; try discriminate; lia. Qed.
